@@ -748,6 +748,7 @@ def worker_history(seed, tier, out_path):
         raise KeyError(kind)
 
     lookup_seen, own_seen = set(), set()
+    abort = [None]
     first_conv_obs = [None]
     stats = {"conversions": 0, "ok": 0, "raised": 0, "snapshots": 0, "probe_calls": 0, "kinds": {}}
 
@@ -767,6 +768,14 @@ def worker_history(seed, tier, out_path):
         # namespace
         lookup, own_only, added = snap.diff()
         stats["snapshots"] += 1
+        if len(lookup) > 25 and not abort[0]:
+            # the process is no longer usable (hundreds of library attributes left patched): report and stop
+            abort[0] = f"{len(lookup)} attributes changed by step {label}"
+            finding(f"mass-attr-leak:{label.split(':')[0]}",
+                    f"after to_onnx ({label}) {len(lookup)} library attributes no longer resolve to what they did right before "
+                    f"the call, e.g. {[_qual(o) + '.' + n for (o, n, _b, _a) in lookup[:4]]}",
+                    {"kind": "history", "seed": seed, "step": idx, "label": label,
+                     "history": [x["label"] for x in res["steps"]]})
         for (o, name, b, a) in lookup:
             k = f"{_qual(o)}.{name}"
             if not ((id(o), name) in spec_key_ids or callable(b) or callable(a)):
@@ -868,8 +877,18 @@ def worker_history(seed, tier, out_path):
     for kind in plan:
         idx += 1
         do_step(kind, idx)
+        if abort[0]:
+            break
         if idx % 6 == 0:
             check_probes(f"step {idx}", idx)
+    if abort[0]:
+        res["aborted"] = abort[0]
+        res["obs_end"] = uni.observe()
+        res["cache_cases"] = []
+        res["stats"] = stats
+        res["wall"] = round(time.time() - t0, 2)
+        json.dump(res, open(out_path, "w"), default=str)
+        return
     if flag_user[0]:
         jax.config.update("jax_enable_x64", False)
         flag_user[0] = False
@@ -2121,7 +2140,9 @@ def run(ctx):
     }
 
     # ---- (d) real process: every getattr-level difference is a violation, keyed by the attribute
-    for dd in hist.get("lookup_diffs", []):
+    if hist.get("aborted"):
+        ctx.coverage["real_process_history_aborted"] = hist["aborted"]
+    for dd in (hist.get("lookup_diffs", [])[:3] if hist.get("aborted") else hist.get("lookup_diffs", [])):
         why = ""
         for c in clashes:
             if nm(tuple(c[1])) == dd["attr"]:
